@@ -49,6 +49,7 @@ structure SameCore (w w' : World) : Prop where
   nextDfd : w.nextDfd ≤ w'.nextDfd
   nextCR : w'.nextCR = w.nextCR
   nextProto : w'.nextProto = w.nextProto
+  profile : w'.profile = w.profile
   protos : ∀ p, (∀ pr', w'.protos.get? p = some pr' → ∃ pr, w.protos.get? p = some pr ∧ pr'.addr = pr.addr ∧ pr'.state = pr.state ∧
       pr'.lost = pr.lost ∧ pr'.pingTimer = pr.pingTimer ∧ pr'.pingAlarm = pr.pingAlarm ∧ pr'.pingKeepalive = pr.pingKeepalive ∧ pr'.connReq = pr.connReq ∧ (Bytes.WF pr.buffer → Bytes.WF pr'.buffer)) ∧
     (∀ pr, w.protos.get? p = some pr → ∃ pr', w'.protos.get? p = some pr')
@@ -178,6 +179,7 @@ theorem WInvX.sameCore {x : Option Nat} {w w' : World} (h : WInvX x w) (s : Same
     obtain ⟨pr2, b2, c2, _⟩ := hpr p pr' b'
     rw [b] at b2; injection b2 with b2; subst b2
     exact ⟨p, pr', a, b', by rw [c2]; exact c⟩
+  case profileOk => rw [s.profile]; exact h.profileOk
   case bufOk =>
     intro p pr' hp'
     obtain ⟨pr, a, _, _, _, _, _, _, _, g⟩ := hpr p pr' hp'
@@ -268,6 +270,7 @@ theorem dropArmed_inv {x : Option Nat} {w : World} (h : WInvX x w) {e : Ent} (he
   case retryLive => intro t' p rid hp; exact h.retryLive t' p rid ((hpending _ _).mp hp).1
   case connReqLive => exact h.connReqLive
   case subArmed => intro y hy; exact h.subArmed y ((hmem y).mp hy).1
+  case profileOk => exact h.profileOk
   case bufOk => exact h.bufOk
 
 theorem dropArmed_mem {x : Option Nat} {w : World} (h : WInvX x w) {e : Ent} (he : e ∈ w.ents) (hq : e.box ≠ .queue) (t : Nat) (y : Ent) :
@@ -348,6 +351,7 @@ theorem fireD_inv {x : Option Nat} {w : World} (h : WInvX x w) {d : Nat} (hd : d
     · exact hcl p pr cr c hp' hcq hc hd'
     · exact (h.connReqLive p pr cr c hp' hcq hc).2 d' hd' hmem
   case subArmed => exact h.subArmed
+  case profileOk => exact h.profileOk
   case bufOk => exact h.bufOk
 
 /-! ### C. an entry without alarm leaves its container -/
@@ -396,6 +400,7 @@ theorem dropQuiet_inv {x : Option Nat} {w : World} (h : WInvX x w) {e : Ent} (ha
   case retryLive => exact h.retryLive
   case connReqLive => exact h.connReqLive
   case subArmed => intro y hy; exact h.subArmed y ((hmem y).mp hy).1
+  case profileOk => exact h.profileOk
   case bufOk => exact h.bufOk
 
 /-! ### world accessors under updates of the request heap -/
@@ -510,6 +515,7 @@ theorem disarm_inv {x : Option Nat} {w : World} (h : WInvX x w) {e : Ent} (he : 
     by_cases hye : y = e
     · subst hye; exact hsub hb
     · rw [hreq' y hy hye] at ha; exact h.subArmed y hy hb ha
+  case profileOk => exact h.profileOk
   case bufOk => exact h.bufOk
 
 /-! ### E/F. a retry timer is armed for an in-flight entry (first transmission, resumption, or re-arming on expiry) -/
@@ -698,6 +704,7 @@ theorem armed_inv {x : Option Nat} {w : World} (h : WInvX x w) {e : Ent} (he : e
     by_cases hye : y = e
     · subst hye; rw [hreqe, hr3] at ha; cases ha
     · rw [hreq' y hy hye] at ha; exact h.subArmed y hy hb ha
+  case profileOk => exact h.profileOk
   case bufOk => exact h.bufOk
 
 /-! ### G/I. a request object enters a container -/
@@ -899,6 +906,7 @@ theorem addWindow_inv {x : Option Nat} {w : World} (h : WInvX x w) (a : Nat) (bo
     · rw [hreqo y hy] at ha; exact h.subArmed y hy hb ha
     · have : (w'.req rid).alarm = none := ha
       rw [hreqn, hal] at this; cases this
+  case profileOk => exact h.profileOk
   case bufOk => exact h.bufOk
 
 /-- an accepted publish() is appended to the queue of held-back messages -/
@@ -1038,6 +1046,7 @@ theorem addQueue_inv {x : Option Nat} {w : World} (h : WInvX x w) (a rid : Nat) 
     rcases (hmem y).mp hy with hy | rfl
     · rw [hreqo y hy] at ha; exact h.subArmed y hy hb ha
     · rcases hb with hb | hb <;> cases hb
+  case profileOk => exact h.profileOk
   case bufOk => exact h.bufOk
 
 end Mqtt
